@@ -9,6 +9,7 @@ from ..facts import Fact, path_facts
 from ..flow import path_calls
 from ..model import NONCONST
 from ..paths import Path, env_at
+from ..rules import optional as optional_rules
 from .common import DIAGNOSTICS, Ctx, describe, new_run
 
 LEVEL = "proof"
@@ -64,6 +65,7 @@ def check(model, tier):
     run.rule("R16.2", "every doomed verdict carries at least one message", 8)
     run.rule("R16.3", "with an executor the verdict is exact: non-doomed verdicts of node kinds that can remove all rows have consulted it; is_empty_invariant flags agree with the reference", 10)
     f = m.func(DIAGNOSTICS, "Diagnostics.run")
+    optional_rules.r_optional_truthiness(ctx, "R16.4", None, ("_diagnostics.py", "_operations/", "_relation.py"))
     ps = [p for p in f.params if p != "cls"]
     rel, exe = ps[0], ps[1]
     paths = ctx.paths(f)
